@@ -100,7 +100,7 @@ Inductive verr :=
 (* non-conformance Python exceptions *)
 Inductive crash :=
 | KeyError_last_picture_number | KeyError_picture_initial_fragment_offset
-| KeyError_fragment_slices_received | KeyError_slices_x | KeyError_slices_y
+| KeyError_fragment_slices_received | KeyError_slices_x
 | KeyError_major_version | KeyError_picture_coding_mode
 | UnboundLocalError_true_parse_offset | TypeError_none_offset | AssertionError_level_matcher
 | ZeroDivisionError_slices_x.
@@ -182,195 +182,223 @@ Section Validator.
     mkH (s_last_hdr h) (s_profile h) (s_major h) (s_pcm h)
         (Some (Z.max (match s_expected_major h with Some e => e | None => MINIMUM_MAJOR_VERSION end) v)).
 
-  (* ---- (10.5.1) parse_info: everything up to and including the offset checks.  Returns the
-     state after `state["_last_parse_info_offset"] = this_parse_info_offset`; p_prev_len of the
-     result is the byte length of THIS unit (set by the caller once the unit is consumed). *)
-  Definition parse_info (s : vstate) (u : dunit) : res vstate :=
-    let sym := u_symbol u in
-    let p := vp s in
-    (* previous next_parse_offset consistent?  `if state.get("next_parse_offset"):` *)
-    do _ <- match p_npo p with
-            | Some n => if n =? 0 then Ok tt
-                        else get (p_prev_len p) TypeError_none_offset (fun true_off =>
-                             raise_if (negb (n =? true_off)) InconsistentNextParseOffset (Ok tt))
-            | None => Ok tt
-            end;
-    (* prefix and parse code are those of a well-formed data unit *)
-    (* generic matcher *)
-    do g <- match gstep (m_gen (vm s)) sym with Some g => Ok g | None => Reject GenericInvalidSequence end;
-    (* level matcher, if created *)
-    do l <- match m_lvl (vm s) with
-            | Some (lvl, ls) => match lstep lvl ls sym with
-                                | Some ls' => Ok (Some (lvl, ls'))
-                                | None => Reject LevelInvalidSequence
-                                end
-            | None => Ok None
-            end;
-    (* profile *)
-    do _ <- match s_profile (vh s) with
-            | Some pr => raise_if (negb (profile_allows pr sym)) ParseCodeNotAllowedInProfile (Ok tt)
-            | None => Ok tt
-            end;
-    (* version support + log *)
-    let need := symbol_version sym in
-    let major := match s_major (vh s) with Some m => m | None => MINIMUM_MAJOR_VERSION end in
-    raise_if (major <? need) ParseCodeNotSupportedByVersion (
-    let h := log_version_lower_bound (vh s) need in
-    (* next_parse_offset *)
+  (* ---- (10.5.1) parse_info, check by check, in the order of the code *)
+
+  (* previous next_parse_offset consistent?   `if state.get("next_parse_offset"):` *)
+  Definition chk_prev_npo (p : pstate) : res unit :=
+    match p_npo p with
+    | Some n => if n =? 0 then Ok tt
+                else get (p_prev_len p) TypeError_none_offset (fun true_off =>
+                     raise_if (negb (n =? true_off)) InconsistentNextParseOffset (Ok tt))
+    | None => Ok tt
+    end.
+  (* (prefix and parse code are those of a well-formed data unit) *)
+  (* generic matcher *)
+  Definition chk_gen (m : mstate) (sym : symbol) : res gst :=
+    match gstep (m_gen m) sym with Some g => Ok g | None => Reject GenericInvalidSequence end.
+  (* level matcher, if created *)
+  Definition chk_lvl (m : mstate) (sym : symbol) : res (option (Z * lst)) :=
+    match m_lvl m with
+    | Some (lvl, ls) => match lstep lvl ls sym with
+                        | Some ls' => Ok (Some (lvl, ls'))
+                        | None => Reject LevelInvalidSequence
+                        end
+    | None => Ok None
+    end.
+  (* profile, if known *)
+  Definition chk_profile (h : hstate) (sym : symbol) : res unit :=
+    match s_profile h with
+    | Some pr => raise_if (negb (profile_allows pr sym)) ParseCodeNotAllowedInProfile (Ok tt)
+    | None => Ok tt
+    end.
+  (* parse code supported by major_version (MINIMUM_MAJOR_VERSION when not yet known) *)
+  Definition chk_version (h : hstate) (sym : symbol) : res unit :=
+    let major := match s_major h with Some m => m | None => MINIMUM_MAJOR_VERSION end in
+    raise_if (major <? symbol_version sym) ParseCodeNotSupportedByVersion (Ok tt).
+  (* next_parse_offset plausible *)
+  Definition chk_npo (u : dunit) : res unit :=
     let npo := u_npo u in
     do _ <- (if is_eos_kind (u_kind u)
              then raise_if (negb (npo =? 0)) NonZeroNextParseOffsetAtEndOfSequence (Ok tt)
              else if negb (is_picture_kind (u_kind u) || is_fragment_kind (u_kind u))
                   then raise_if (npo =? 0) MissingNextParseOffset (Ok tt)
                   else Ok tt);
-    raise_if ((1 <=? npo) && (npo <? PARSE_INFO_HEADER_BYTES)) InvalidNextParseOffset (
-    (* previous_parse_offset *)
-    do _ <- match p_prev_len p with
-            | None => raise_if (negb (u_ppo u =? 0)) NonZeroPreviousParseOffsetAtStartOfSequence (Ok tt)
-            | Some true_prev =>
-                if negb (u_ppo u =? true_prev)
-                then (* pinned: the raise evaluates `true_parse_offset`, only assigned when the
-                        previous next_parse_offset was truthy *)
-                     if pinned && match p_npo p with Some n => n =? 0 | None => true end
-                     then Crash UnboundLocalError_true_parse_offset
-                     else Reject InconsistentPreviousParseOffset
-                else Ok tt
-            end;
-    Ok (mkV (mkP (p_prev_len p) (Some npo)) h (vn s) (vf s) (mkM g l)))).
+    raise_if ((1 <=? npo) && (npo <? PARSE_INFO_HEADER_BYTES)) InvalidNextParseOffset (Ok tt).
+  (* previous_parse_offset *)
+  Definition chk_ppo (p : pstate) (u : dunit) : res unit :=
+    match p_prev_len p with
+    | None => raise_if (negb (u_ppo u =? 0)) NonZeroPreviousParseOffsetAtStartOfSequence (Ok tt)
+    | Some true_prev =>
+        if negb (u_ppo u =? true_prev)
+        then (* pinned: the raise evaluates `true_parse_offset`, which is only assigned when the
+                previous next_parse_offset was truthy *)
+             if pinned && match p_npo p with Some n => n =? 0 | None => true end
+             then Crash UnboundLocalError_true_parse_offset
+             else Reject InconsistentPreviousParseOffset
+        else Ok tt
+    end.
+
+  (* Returns the state after `state["_last_parse_info_offset"] = this_parse_info_offset`;
+     p_prev_len of the result is still that of the previous unit (the caller sets it to the byte
+     length of THIS unit once the unit is consumed). *)
+  Definition parse_info (s : vstate) (u : dunit) : res vstate :=
+    let sym := u_symbol u in
+    do _ <- chk_prev_npo (vp s);
+    do g <- chk_gen (vm s) sym;
+    do l <- chk_lvl (vm s) sym;
+    do _ <- chk_profile (vh s) sym;
+    do _ <- chk_version (vh s) sym;
+    do _ <- chk_npo u;
+    do _ <- chk_ppo (vp s) u;
+    Ok (mkV (mkP (p_prev_len (vp s)) (Some (u_npo u)))
+            (log_version_lower_bound (vh s) (symbol_version sym)) (vn s) (vf s) (mkM g l)).
 
   (* ---- (11.1) sequence_header / (11.2.1) parse_parameters *)
-  Definition sequence_header (s : vstate) (h : hdr) : res vstate :=
+  Definition chk_hdr_params (h : hdr) : res unit :=
     raise_if (h_major h <? MINIMUM_MAJOR_VERSION) MajorVersionTooLow (
     raise_if (negb (profile_known (h_profile h))) BadProfile (
-    let need := profile_version_implication (h_profile h) in
-    raise_if (h_major h <? need) ProfileNotSupportedByVersion (
-    let hs := log_version_lower_bound (vh s) need in
-    raise_if (negb (level_known (h_level h))) BadLevel (
-    (* level matcher created (and fed "sequence_header") on the first header of the sequence *)
-    do l <- match m_lvl (vm s) with
-            | Some l => Ok (Some l)
-            | None => match lstep (h_level h) (lstart (h_level h)) SSeqHdr with
-                      | Some ls => Ok (Some (h_level h, ls))
-                      | None => Crash AssertionError_level_matcher
-                      end
-            end;
-    (* assert_level_constraint(state, "level", ...): the values recorded so far in this sequence
-       pin the level (every column of the table has one level) *)
-    do _ <- match l with
-            | Some (lvl, _) => raise_if (negb (lvl =? h_level h)) ValueNotAllowedInLevel (Ok tt)
-            | None => Ok tt
-            end;
-    (* video parameter presets: version support + log *)
-    raise_if (h_major h <? h_pvmin h) PresetNotSupportedByVersion (
-    let hs := log_version_lower_bound hs (h_pvmin h) in
-    (* byte-for-byte comparison with the previous header of the sequence *)
-    do _ <- match s_last_hdr (vh s) with
-            | Some i => raise_if (negb (i =? h_id h)) SequenceHeaderChangedMidSequence (Ok tt)
-            | None => Ok tt
-            end;
+    raise_if (h_major h <? profile_version_implication (h_profile h)) ProfileNotSupportedByVersion (
+    raise_if (negb (level_known (h_level h))) BadLevel (Ok tt)))).
+  (* level matcher created (and fed "sequence_header", under `assert`) on the first header *)
+  Definition make_lvl (m : mstate) (h : hdr) : res (Z * lst) :=
+    match m_lvl m with
+    | Some l => Ok l
+    | None => match lstep (h_level h) (lstart (h_level h)) SSeqHdr with
+              | Some ls => Ok (h_level h, ls)
+              | None => Crash AssertionError_level_matcher
+              end
+    end.
+  (* assert_level_constraint(state, "level", ...): the values recorded so far in this sequence pin
+     the level (every column of the constraint table has exactly one level) *)
+  Definition chk_lvl_value (l : Z * lst) (h : hdr) : res unit :=
+    raise_if (negb (fst l =? h_level h)) ValueNotAllowedInLevel (Ok tt).
+  (* video parameter presets supported by major_version *)
+  Definition chk_presets (h : hdr) : res unit :=
+    raise_if (h_major h <? h_pvmin h) PresetNotSupportedByVersion (Ok tt).
+  (* byte-for-byte comparison with the previous header of the sequence *)
+  Definition chk_hdr_same (hs : hstate) (h : hdr) : res unit :=
+    match s_last_hdr hs with
+    | Some i => raise_if (negb (i =? h_id h)) SequenceHeaderChangedMidSequence (Ok tt)
+    | None => Ok tt
+    end.
+
+  Definition sequence_header (s : vstate) (h : hdr) : res vstate :=
+    do _ <- chk_hdr_params h;
+    do l <- make_lvl (vm s) h;
+    do _ <- chk_lvl_value l h;
+    do _ <- chk_presets h;
+    do _ <- chk_hdr_same (vh s) h;
+    let hs := log_version_lower_bound
+                (log_version_lower_bound (vh s) (profile_version_implication (h_profile h))) (h_pvmin h) in
     Ok (mkV (vp s)
             (mkH (Some (h_id h)) (Some (h_profile h)) (Some (h_major h)) (Some (h_pcm h)) (s_expected_major hs))
-            (vn s) (vf s) (mkM (m_gen (vm s)) l))))))).
+            (vn s) (vf s) (mkM (m_gen (vm s)) (Some l))).
 
   (* ---- assertions.assert_picture_number_incremented_as_expected *)
-  Definition picture_number_step (s : vstate) (n : Z) : res vstate :=
-    do _ <- match n_last_picnum (vn s) with
+  Definition picture_number_step (pcm : option Z) (ns : nstate) (n : Z) : res nstate :=
+    do _ <- match n_last_picnum ns with
             | Some l => raise_if (negb (n =? (l + 1) mod 4294967296)) NonConsecutivePictureNumbers (Ok tt)
             | None => Ok tt
             end;
-    get (s_pcm (vh s)) KeyError_picture_coding_mode (fun pcm =>
-    raise_if ((pcm =? 1) && (n_num_pictures (vn s) mod 2 =? 0) && negb (n mod 2 =? 0))
+    get pcm KeyError_picture_coding_mode (fun pcm =>
+    raise_if ((pcm =? 1) && (n_num_pictures ns mod 2 =? 0) && negb (n mod 2 =? 0))
              EarliestFieldHasOddPictureNumber (
-    Ok (mkV (vp s) (vh s) (mkN (Some n) (n_num_pictures (vn s) + 1)) (vf s) (vm s)))).
+    Ok (mkN (Some n) (n_num_pictures ns + 1)))).
 
   (* ---- (12.4.1) transform_parameters: extended parameters are only present (and their version
-     implication only logged) when major_version >= 3; slice_parameters stores slices_x/slices_y *)
-  Definition transform_parameters (s : vstate) (tp : tparams) : res vstate :=
-    get (s_major (vh s)) KeyError_major_version (fun major =>
-    let h := if 3 <=? major
-             then log_version_lower_bound (vh s)
-                    (wavelet_transform_version_implication (tp_wi tp) (tp_wi_ho tp) (tp_depth_ho tp))
-             else vh s in
-    raise_if ((tp_sx tp =? 0) || (tp_sy tp =? 0)) ZeroSlicesInCodedPicture (
-    let f := vf s in
-    Ok (mkV (vp s) h (vn s)
-            (mkF (f_remaining f) (f_received f) (f_init_offset f) (Some (tp_sx tp)) (Some (tp_sy tp)))
-            (vm s)))).
+     implication only logged) when major_version >= 3; then slice_parameters *)
+  Definition tp_version (h : hstate) (tp : tparams) : res hstate :=
+    get (s_major h) KeyError_major_version (fun major =>
+    Ok (if 3 <=? major
+        then log_version_lower_bound h
+               (wavelet_transform_version_implication (tp_wi tp) (tp_wi_ho tp) (tp_depth_ho tp))
+        else h)).
+  Definition chk_slices (tp : tparams) : res unit :=
+    raise_if ((tp_sx tp =? 0) || (tp_sy tp =? 0)) ZeroSlicesInCodedPicture (Ok tt).
+
+  (* no fragmented picture may be in progress (the error's arguments read two state entries) *)
+  Definition chk_frag_closed (f : fstate) (e : verr) : res unit :=
+    if negb (f_remaining f =? 0)
+    then if negb (f_init_offset f) then Crash KeyError_picture_initial_fragment_offset
+         else get (f_received f) KeyError_fragment_slices_received (fun _ => Reject e)
+    else Ok tt.
+
+  (* ---- (14.2) fragment_header for a slice-bearing fragment *)
+  Definition chk_frag_picnum (last : option Z) (n : Z) : res unit :=
+    match last with
+    | Some l => raise_if (negb (l =? n)) PictureNumberChangedMidFragmentedPicture (Ok tt)
+    | None => if pinned then Crash KeyError_last_picture_number else Ok tt
+    end.
+  Definition chk_frag_count (f : fstate) (count : Z) : res unit :=
+    if f_remaining f <? count
+    then if pinned && negb (f_init_offset f) then Crash KeyError_picture_initial_fragment_offset
+         else Reject TooManySlicesInFragmentedPicture
+    else Ok tt.
+  (* raster order, then (14.4) fragment_data: count slices received *)
+  Definition frag_data (f : fstate) (count x y : Z) : res fstate :=
+    get (f_received f) KeyError_fragment_slices_received (fun rcv =>
+    get (f_slices_x f) KeyError_slices_x (fun sx =>
+    if sx =? 0 then Crash ZeroDivisionError_slices_x else
+    if negb (x =? rcv mod sx) || negb (y =? rcv / sx)
+    then if negb (f_init_offset f) then Crash KeyError_picture_initial_fragment_offset
+         else Reject FragmentSlicesNotContiguous
+    else Ok (mkF (f_remaining f - count) (Some (rcv + count)) (f_init_offset f) (f_slices_x f) (f_slices_y f)))).
 
   (* ---- the body of the parse_sequence loop for one (non end_of_sequence) data unit *)
   Definition data_unit (s : vstate) (u : dunit) : res vstate :=
     match u_kind u with
     | KSeqHdr h => sequence_header s h
     | KPic _ n tp =>
+        do _ <- chk_frag_closed (vf s) PictureInterleavedWithFragmentedPicture;
+        do ns <- picture_number_step (s_pcm (vh s)) (vn s) n;
+        do hs <- tp_version (vh s) tp;
+        do _ <- chk_slices tp;
         let f := vf s in
-        do _ <- (if negb (f_remaining f =? 0)
-                 then if negb (f_init_offset f) then Crash KeyError_picture_initial_fragment_offset
-                      else get (f_received f) KeyError_fragment_slices_received (fun _ =>
-                           Reject PictureInterleavedWithFragmentedPicture)
-                 else Ok tt);
-        do s1 <- picture_number_step s n;
-        transform_parameters s1 tp
+        Ok (mkV (vp s) hs ns
+                (mkF (f_remaining f) (f_received f) (f_init_offset f) (Some (tp_sx tp)) (Some (tp_sy tp)))
+                (vm s))
     | KFragFirst _ n tp =>
-        let f := vf s in
-        do _ <- (if negb (f_remaining f =? 0)
-                 then if negb (f_init_offset f) then Crash KeyError_picture_initial_fragment_offset
-                      else get (f_received f) KeyError_fragment_slices_received (fun _ =>
-                           Reject FragmentedPictureRestarted)
-                 else Ok tt);
-        do s1 <- picture_number_step s n;
+        do _ <- chk_frag_closed (vf s) FragmentedPictureRestarted;
+        do ns <- picture_number_step (s_pcm (vh s)) (vn s) n;
         (* state["_picture_initial_fragment_offset"] = fragment_offset *)
-        do s2 <- transform_parameters s1 tp;
+        do hs <- tp_version (vh s) tp;
+        do _ <- chk_slices tp;
         (* initialize_fragment_state *)
-        get (f_slices_x (vf s2)) KeyError_slices_x (fun sx =>
-        get (f_slices_y (vf s2)) KeyError_slices_y (fun sy =>
-        Ok (mkV (vp s2) (vh s2) (vn s2) (mkF (sx * sy) (Some 0) true (Some sx) (Some sy)) (vm s2))))
+        Ok (mkV (vp s) hs ns
+                (mkF (tp_sx tp * tp_sy tp) (Some 0) true (Some (tp_sx tp)) (Some (tp_sy tp)))
+                (vm s))
     | KFragData _ n count x y =>
-        let f := vf s in
-        (* picture number must not change *)
-        do _ <- match n_last_picnum (vn s) with
-                | Some l => raise_if (negb (l =? n)) PictureNumberChangedMidFragmentedPicture (Ok tt)
-                | None => if pinned then Crash KeyError_last_picture_number else Ok tt
-                end;
-        (* no extra slices *)
-        do _ <- (if f_remaining f <? count
-                 then if pinned && negb (f_init_offset f) then Crash KeyError_picture_initial_fragment_offset
-                      else Reject TooManySlicesInFragmentedPicture
-                 else Ok tt);
-        (* raster order *)
-        get (f_received f) KeyError_fragment_slices_received (fun rcv =>
-        get (f_slices_x f) KeyError_slices_x (fun sx =>
-        if sx =? 0 then Crash ZeroDivisionError_slices_x else
-        if negb (x =? rcv mod sx) || negb (y =? rcv / sx)
-        then if negb (f_init_offset f) then Crash KeyError_picture_initial_fragment_offset
-             else Reject FragmentSlicesNotContiguous
-        else
-        (* fragment_data: count slices received *)
-        Ok (mkV (vp s) (vh s) (vn s)
-                (mkF (f_remaining f - count) (Some (rcv + count)) (f_init_offset f) (f_slices_x f) (f_slices_y f))
-                (vm s))))
+        do _ <- chk_frag_picnum (n_last_picnum (vn s)) n;
+        do _ <- chk_frag_count (vf s) count;
+        do f <- frag_data (vf s) count x y;
+        Ok (mkV (vp s) (vh s) (vn s) f (vm s))
     | KPad | KAux | KEos => Ok s
     end.
 
   (* ---- the checks after the parse_sequence loop *)
+  Definition chk_gen_complete (m : mstate) : res unit :=
+    raise_if (negb (gcomplete (m_gen m))) GenericInvalidSequence (Ok tt).
+  Definition chk_lvl_complete (m : mstate) : res unit :=
+    match m_lvl m with
+    | Some (lvl, ls) => raise_if (negb (lcomplete lvl ls)) LevelInvalidSequence (Ok tt)
+    | None => Ok tt
+    end.
+  Definition chk_whole_frames (pcm : option Z) (ns : nstate) : res unit :=
+    get pcm KeyError_picture_coding_mode (fun pcm =>
+    raise_if ((pcm =? 1) && negb (n_num_pictures ns mod 2 =? 0)) OddNumberOfFieldsInSequence (Ok tt)).
+  (* assert_major_version_is_minimal *)
+  Definition chk_version_minimal (h : hstate) (ns : nstate) : res unit :=
+    get (s_major h) KeyError_major_version (fun major =>
+    let expected := match s_expected_major h with Some e => e | None => MINIMUM_MAJOR_VERSION end in
+    if (n_num_pictures ns =? 0) && (major =? 3) then Ok tt
+    else raise_if (expected <? major) MajorVersionTooHigh (Ok tt)).
+
   Definition end_of_sequence (s : vstate) : res unit :=
-    raise_if (negb (gcomplete (m_gen (vm s)))) GenericInvalidSequence (
-    do _ <- match m_lvl (vm s) with
-            | Some (lvl, ls) => raise_if (negb (lcomplete lvl ls)) LevelInvalidSequence (Ok tt)
-            | None => Ok tt
-            end;
-    let f := vf s in
-    do _ <- (if negb (f_remaining f =? 0)
-             then if negb (f_init_offset f) then Crash KeyError_picture_initial_fragment_offset
-                  else get (f_received f) KeyError_fragment_slices_received (fun _ =>
-                       Reject SequenceContainsIncompleteFragmentedPicture)
-             else Ok tt);
-    get (s_pcm (vh s)) KeyError_picture_coding_mode (fun pcm =>
-    raise_if ((pcm =? 1) && negb (n_num_pictures (vn s) mod 2 =? 0)) OddNumberOfFieldsInSequence (
-    (* assert_major_version_is_minimal *)
-    get (s_major (vh s)) KeyError_major_version (fun major =>
-    let expected := match s_expected_major (vh s) with Some e => e | None => MINIMUM_MAJOR_VERSION end in
-    if (n_num_pictures (vn s) =? 0) && (major =? 3) then Ok tt
-    else raise_if (expected <? major) MajorVersionTooHigh (Ok tt))))).
+    do _ <- chk_gen_complete (vm s);
+    do _ <- chk_lvl_complete (vm s);
+    do _ <- chk_frag_closed (vf s) SequenceContainsIncompleteFragmentedPicture;
+    do _ <- chk_whole_frames (s_pcm (vh s)) (vn s);
+    chk_version_minimal (vh s) (vn s).
 
   (* outcome of one data unit *)
   Inductive step_result := Continue (s : vstate) | SeqDone | Fail (v : verdict).
@@ -461,6 +489,18 @@ Section Validator.
         end
     end.
 End Validator.
+Arguments m_gen {gst lst} _.
+Arguments m_lvl {gst lst} _.
+Arguments mkM {gst lst} _ _.
+Arguments vp {gst lst} _.
+Arguments vh {gst lst} _.
+Arguments vn {gst lst} _.
+Arguments vf {gst lst} _.
+Arguments vm {gst lst} _.
+Arguments mkV {gst lst} _ _ _ _ _.
+Arguments Continue {gst lst} _.
+Arguments SeqDone {gst lst}.
+Arguments Fail {gst lst} _.
 
 (* ---------------------------------------------------------------- the rules, independently *)
 (* Ten independent checkers over ONE sequence (a list of data units).  Each is a short fold over
@@ -654,7 +694,9 @@ Definition split_eos (us : list dunit) : list (list dunit) := split_eos_aux [] u
 
 (* ---------------------------------------------------------------- "individually valid data units" *)
 (* The property's hypothesis, for one sequence:
-   - two sequence headers with the same bytes (id) decode to the same fields;
+   - a data unit is at least its 13-byte parse_info long;
+   - sequence headers carry a profile and a level of the respective enums, and two sequence headers
+     with the same bytes (id) decode to the same fields;
    - a slice-bearing fragment codes a positive slice count (that is what makes it one; the field
      is unsigned), pictures code at least one slice in each direction;
    - picture payloads were produced for the major_version of the sequence's header: below version
@@ -664,12 +706,15 @@ Definition split_eos (us : list dunit) : list (list dunit) := split_eos_aux [] u
 Definition tp_valid (major : Z) (tp : tparams) : bool :=
   (0 <? tp_sx tp) && (0 <? tp_sy tp) &&
   ((3 <=? major) || ((tp_wi_ho tp =? tp_wi tp) && (tp_depth_ho tp =? 0))).
-Definition unit_valid (h0 : option hdr) (u : dunit) : bool :=
+Definition unit_valid (level_known : Z -> bool) (h0 : option hdr) (u : dunit) : bool :=
+  (PARSE_INFO_HEADER_BYTES <=? u_len u) &&
   match u_kind u with
-  | KSeqHdr h => match h0 with Some h0 => negb (h_id h =? h_id h0) || hdr_eqb h h0 | None => true end
+  | KSeqHdr h => profile_known (h_profile h) && level_known (h_level h) &&
+                 match h0 with Some h0 => negb (h_id h =? h_id h0) || hdr_eqb h h0 | None => true end
   | KPic _ _ tp | KFragFirst _ _ tp =>
       match h0 with Some h0 => tp_valid (h_major h0) tp | None => true end
   | KFragData _ _ c _ _ => 0 <? c
   | _ => true
   end.
-Definition units_valid (us : list dunit) : bool := forallb (unit_valid (first_hdr us)) us.
+Definition units_valid (level_known : Z -> bool) (us : list dunit) : bool :=
+  forallb (unit_valid level_known (first_hdr us)) us.
